@@ -16,7 +16,7 @@ func init() {
 		id: "C02",
 		li: levelInfo{
 			Level:       "other",
-			Explanation: "Static ownership (typestate) analysis. Every request object acquired in proc/redis (parameter of a consuming function, closure capture, constructor result that is waited on, receive from a request queue, child of a split) is followed along every acyclic CFG path of its function and of one loop iteration; on each path it must be completed exactly once - directly (SetResponse), by hand-off into a request queue, by a callee whose inferred summary consumes it, or by delegation to a hook of another request. Summaries (consumes / borrows / consumes-iff-Stop / wraps-iff-err-nil / delegates) are inferred bottom-up over the VTA call graph. Further rules: the terminal drain covers every request queue and runs after both loops are joined; every blocking queue operation is a select case next to the connection's quit latch; an enqueue that races with the final drain re-tests the latch and drains; child counters of split requests; close(done) only inside SetResponse. Decides the shape of the code on all paths; real scheduling and timing are not decided. R9: the connection is closed after the reader returns and before the writer is joined (shared with C07.R2), and no lock is held at a join that the joined goroutines need (shared with C09.R7). R10 (shared with C07.R1): the winner of a shared connect attempt stores the connection or error it returns into the in-flight entry before releasing the waiters (a deletion in a deferred closure is recognised). The terminal drain is evaluated per call site: a queue switched off by a nil channel counts only when the switching argument is the matching constant; the writer goroutine may be a closure or a method started with go; the child counter may be wrapped in a one-field type. R11: a slice field grown in place is never initialised with a two-index sub-slice of shared storage. R12: no request object is kept in a package-level variable (its done channel closes once). R6 accepts the counter test spelled as `!= 0` with an early return; completion hooks may be built by a factory function.",
+			Explanation: "Static ownership (typestate) analysis. Every request object acquired in proc/redis (parameter of a consuming function, closure capture, constructor result that is waited on, receive from a request queue, child of a split) is followed along every acyclic CFG path of its function and of one loop iteration; on each path it must be completed exactly once - directly (SetResponse), by hand-off into a request queue, by a callee whose inferred summary consumes it, or by delegation to a hook of another request. Summaries (consumes / borrows / consumes-iff-Stop / wraps-iff-err-nil / delegates) are inferred bottom-up over the VTA call graph. Further rules: the terminal drain covers every request queue and runs after both loops are joined; every blocking queue operation is a select case next to the connection's quit latch; an enqueue that races with the final drain re-tests the latch and drains; child counters of split requests; close(done) only inside SetResponse. Decides the shape of the code on all paths; real scheduling and timing are not decided. R9: the connection is closed after the reader returns and before the writer is joined (shared with C07.R2), and no lock is held at a join that the joined goroutines need (shared with C09.R7). R10 (shared with C07.R1): the winner of a shared connect attempt stores the connection or error it returns into the in-flight entry before releasing the waiters (a deletion in a deferred closure is recognised). The terminal drain is evaluated per call site: a queue switched off by a nil channel counts only when the switching argument is the matching constant; the writer goroutine may be a closure or a method started with go; the child counter may be wrapped in a one-field type. R11: a slice field grown in place is never initialised with a two-index sub-slice of shared storage. R12: no request object is kept in a package-level variable (its done channel closes once). R6 accepts the counter test spelled as `!= 0` with an early return; completion hooks may be built by a factory function. R5 also: an enqueue into a backend queue waits for room (no default arm).",
 			Assumptions: []string{"a request is shared only through the queues, hooks and wrappers the engine models (no other aliasing of *simpleRequest / *rawRequest)"},
 			TrustedBase: []string{"go/ssa", "VTA call graph", "samlint eown.go path enumeration"},
 		},
@@ -467,6 +467,12 @@ func checkQueues(c *Ctx, e *ownEngine) {
 				continue
 			}
 			site := fmt.Sprintf("%s %s(%s)", fnKey(op.Fn), op.Kind, q.Name())
+			if op.InSelect != nil && !op.Blocking && op.Kind == opSend {
+				// an enqueue with a default arm: the request is refused (or dropped) when the queue is momentarily full,
+				// although the backend is reachable and would serve it
+				c.Fail("R5", fmt.Sprintf("%s send(%s) waits for room", fnKey(op.Fn), q.Name()), op.In.Pos(), "the enqueue into the backend connection's queue has a default arm: when the queue is momentarily full the request is answered with an error (or dropped) although the owner is reachable and would serve it - a MOVED/ASK relayed to a busy target fails, and of the ASKING/command pair one can be queued while the other is refused")
+				continue
+			}
 			if op.InSelect != nil && !op.Blocking {
 				c.OK("R4", site, op.In.Pos(), "non-blocking (drain)")
 				continue
@@ -506,6 +512,12 @@ func checkQueues(c *Ctx, e *ownEngine) {
 					}
 				}
 				c.Check(only, "R5", site5, op.In.Pos(), "sender runs only in the goroutine that is joined before the drain", "the writer loop is also called from outside the joined goroutine")
+				continue
+			}
+			// the enqueue waits for room: a select with a default arm answers "busy" (or drops) although the backend is
+			// reachable - a redirected command is failed, or its ASKING is queued and the command is not
+			if op.InSelect != nil && !op.InSelect.Blocking {
+				c.Fail("R5", site5+" waits for room", op.In.Pos(), "the enqueue into the backend connection's queue has a default arm: when the queue is momentarily full the request is answered with an error (or dropped) although the owner is reachable and would serve it - a MOVED/ASK relayed to a busy target fails, and of the ASKING/command pair one can be queued while the other is refused")
 				continue
 			}
 			// idiom (b): after the send, every path re-tests quit and drains this queue on the closed branch
